@@ -37,11 +37,13 @@ def setup(ctx, scen):
     return scen
 
 
-def mk_pass(kind, std=None):
+def mk_pass(kind, std=None, query_timeout=120):
     if kind == 'bin':
         from cvise.passes.clangbinarysearch import ClangBinarySearchPass
         p = ClangBinarySearchPass('remove-unused-function', {'clang_delta': STANDIN})
-        p.QUERY_TIMEOUT = 0.4
+        # the length of the count-query timeout is not what is studied: long enough that a loaded machine never
+        # turns an answered query into "0 instances"; scenarios with a hanging query shorten it (std_case)
+        p.QUERY_TIMEOUT = query_timeout
     else:
         from cvise.passes.clang import ClangPass
         p = ClangPass('remove-unused-function', {'clang_delta': STANDIN})
@@ -164,11 +166,22 @@ def cascade_case(ctx, n, req, k, verdicts=None):
 
 
 def std_case(ctx, caps, faults, pass_=None):
-    scen = setup(ctx, {'caps': caps, 'query_faults': faults, 'sleep': 0.8})
+    # a hanging query must outlast the timeout and an answered one must beat it: a first attempt with short times,
+    # and on a disagreement a second one with generous times (a loaded machine makes the stand-in start slowly)
+    own = pass_ is None
+    res = _std_case(ctx, caps, faults, pass_, 1.0, 3.0)
+    if res[2] and own:
+        res = _std_case(ctx, caps, faults, None, 10.0, 30.0)
+    return res
+
+
+def _std_case(ctx, caps, faults, pass_, qt, sleep):
+    scen = setup(ctx, {'caps': caps, 'query_faults': faults, 'sleep': sleep})
     path = os.path.join(ctx.tmp, 'tc.cc')
     with open(path, 'w') as f:
         f.write(''.join(f'I{i}\n' for i in range(8)))
     pass_ = pass_ or mk_pass('bin', None)
+    pass_.QUERY_TIMEOUT = qt if 'sleep' in faults.values() else 120
     st = pass_.new(path, None)
     counts = []
     for s in STDS:
